@@ -3,6 +3,7 @@
   as `spec` and the harness checks on the implementation).
 -/
 import ALV.Lemmas.C13Complex
+import ALV.Model.C13Hist
 
 set_option linter.unusedSimpArgs false
 
@@ -34,5 +35,29 @@ theorem meets_section_stable (s : Coefs ℝ) (f bw : ℝ) (hg : magSq s f = 1)
     (hst : ∀ p : ℂ, IsPole s p → ‖p‖ < 1) :
     Meets s (gammatoneSectionContract f bw false) := by
   refine ⟨?_, ?_, ?_, ?_, ?_, ?_, ?_, ?_, hst⟩ <;> simp [gammatoneSectionContract, hg]
+
+/-! ### per design kind (histories, `ALV/Model/C13Hist.lean`) -/
+
+/-- the parameter ranges of the property, per kind (`v1` = cut-off / centre frequency, resp. the
+comb's alpha / tau; `v2` = bandwidth) -/
+def ParOK : Kind → ℝ → ℝ → Prop
+  | .lowpass _, v1, _ => 0 < v1 ∧ v1 < Real.pi
+  | .highpass _, v1, _ => 0 < v1 ∧ v1 < Real.pi
+  | .resonator st, v1, v2 => 0 < v1 ∧ v1 < Real.pi ∧ 0 < v2 ∧
+      (st = .zExp → |Real.cos v1| * (1 + Real.exp (-(v2 / 2)) ^ 2) ≤ 2 * Real.exp (-(v2 / 2)))
+  | .klapuri, v1, v2 => 0 < v1 ∧ v1 < Real.pi ∧ 0 < v2
+  | _, _, _ => True
+
+/-- what the sections of an instant must satisfy, per kind: the contract record of the constant
+design (sections 1–7, 10); for the combs: being the comb of the drawn alpha / tau, whose
+difference equation is section 6. -/
+def KindMeets : Kind → ℝ → ℝ → List (Coefs ℝ) → Prop
+  | .lowpass st, v1, _, secs => ∀ s ∈ secs, Meets s (lowpassSpec st v1)
+  | .highpass st, v1, _, secs => ∀ s ∈ secs, Meets s (highpassSpec st v1)
+  | .resonator st, v1, v2, secs => ∀ s ∈ secs, Meets s (resonatorSpec st v1 v2)
+  | .klapuri, v1, v2, secs => ∀ s ∈ secs, Meets s (gammatoneSectionContract v1 v2 false)
+  | .combFb d, v1, _, secs => secs = [combFb d v1]
+  | .combTau d, v1, _, secs => secs = [combFb d (Real.exp (-(d : ℝ) / v1))]
+  | .combFf d, v1, _, secs => secs = [combFf d v1]
 
 end ALV.C13
